@@ -1,4 +1,4 @@
-"""Sidecar contracts for rnapolis/transformer.py (C20): copy_from_to, replace_value.
+"""Sidecar contracts for rnapolis/transformer.py (C20): copy_from_to, replace_value, main (CLI data flow).
 
 Abstract document model.  A document D (an integer id) is a list of data blocks; block b has ncat(D, b) categories in file
 order, category k of block b has the name cname(D, b, k), the items attr(D, b, k, a) for a < nattr(D, b, k) and
@@ -21,7 +21,7 @@ expressible).  Ghost variable W = the document id handed to writeFile.
 """
 import z3
 
-from pyvc.expr import AND, NOT
+from pyvc.expr import NOT
 from pyvc.values import Unsupported, VDict, VList, VOpt, VRef, leaves, to_z3, uid
 
 
@@ -60,6 +60,8 @@ UFUNS = {
     "nattr": (i3, "int"), "attr": (i4, "str"), "nrows": (i3, "int"), "rowlen": (i4, "int"), "cell": (i5, "str"),
     # ndist(D, k, i, n): number of different values among the first n cells of item i of category k of block 0 (definition below)
     "ndist": (i4, "int"),
+    # firstpos(D, k, i, x): the first row of category k (block 0) whose item i has the value x, if there is one (definition below)
+    "firstpos": (["int", "int", "int", "str"], "int"),
     # main(): the command line (what parse_args() returns is a function of sys.argv, fixed during the call) and the files
     "cli_input": ([], "str"), "cli_output": ([], "str"),
     "cli_category": ([], "str"), "cli_copy_from": ([], "str"), "cli_copy_to": ([], "str"), "cli_replace": ([], "str"), "cli_values": ([], "str"),
@@ -191,10 +193,11 @@ def repl_target(P, W, category, column, M):
 
 @spec
 def repl_domain(P, category, column, M):
-    """the mapping has no other keys than the values of the item"""
+    """the mapping has no other keys than the values of the item: key x is the value in row firstpos(P, k, i, x)"""
     return forall(lambda k, i: implies(cat_at(P, k, category) and item_at(P, k, i, column),
-                                       forall(lambda x: implies(x in M, exists(lambda r: 0 <= r and r < nrows(P, 0, k) and cell(P, 0, k, r, i) == x)),
-                                              sorts={"x": "str"})))
+                                       forall(lambda x: implies(x in M, 0 <= firstpos(P, k, i, x) and firstpos(P, k, i, x) < nrows(P, 0, k)
+                                                                and cell(P, 0, k, firstpos(P, k, i, x), i) == x),
+                                              sorts={"x": "str"}, pats=["firstpos(P, k, i, x)"])))
 
 
 @spec
@@ -238,9 +241,19 @@ def ndist_def(D):
                        pats=["ndist(D, k, i, n + 1)"]))
 
 
+@spec
+def firstpos_def(D):
+    """least-number principle: if some row r holds x then firstpos(x) is a row <= r that holds x"""
+    return forall(lambda k, i, r: implies(r >= 0, 0 <= firstpos(D, k, i, cell(D, 0, k, r, i)) and firstpos(D, k, i, cell(D, 0, k, r, i)) <= r
+                                          and cell(D, 0, k, firstpos(D, k, i, cell(D, 0, k, r, i)), i) == cell(D, 0, k, r, i)),
+                  pats=["firstpos(D, k, i, cell(D, 0, k, r, i))"])
+
+
 LEMMAS = {
     # definition by primitive recursion on n of the counting function used in the statement of replace_value
     "ndist_definition": {"kind": "definition", "params": ["D"], "ensures": ["ndist_def(D)"]},
+    # definition of the witness function used in the statement of replace_value (well-ordering of the row numbers)
+    "firstpos_definition": {"kind": "definition", "params": ["D"], "ensures": ["firstpos_def(D)"]},
 }
 
 
@@ -275,6 +288,18 @@ def copied(C, n, A1, i1, j1):
 
 
 @spec
+def names_are(data, P):
+    """bridge heap -> document for the first container: its name list is the category names of block 0"""
+    return len(data) == nblocks(P) and implies(len(data) > 0, len(data[0].names.items) == ncat(P, 0)
+                                               and forall(lambda k: implies(0 <= k and k < ncat(P, 0), data[0].names.items[k] == cname(P, 0, k))))
+
+
+@spec
+def items_are(A0, P, kc):
+    return len(A0) == nattr(P, 0, kc) and forall(lambda a: implies(0 <= a and a < len(A0), A0[a] == attr(P, 0, kc, a)))
+
+
+@spec
 def collected(C, n, transformed):
     """`transformed` holds the first n row objects of C, in order"""
     return len(transformed) == n and forall(lambda q: implies(0 <= q and q < n, transformed[q] is C.rows.rws0[q]))
@@ -297,8 +322,9 @@ def column_is(C, P, kc, ic):
 
 @spec
 def keys_seen(P, kc, ic, n, M):
-    return (forall(lambda q: implies(0 <= q and q < n, cell(P, 0, kc, q, ic) in M))
-            and forall(lambda x: implies(x in M, exists(lambda q: 0 <= q and q < n and cell(P, 0, kc, q, ic) == x)), sorts={"x": "str"}))
+    return (forall(lambda q: implies(0 <= q and q < n, cell(P, 0, kc, q, ic) in M), pats=["cell(P, 0, kc, q, ic)"])
+            and forall(lambda x: implies(x in M, 0 <= firstpos(P, kc, ic, x) and firstpos(P, kc, ic, x) < n
+                                         and cell(P, 0, kc, firstpos(P, kc, ic, x), ic) == x), sorts={"x": "str"}, pats=["firstpos(P, kc, ic, x)"]))
 
 
 @spec
@@ -500,7 +526,7 @@ def ext_readFile(e, args, kw, node, st):
             z3.Select(s_kind, ato(b, k)) == 1, z3.Select(items.length, ato(b, k)) == nattr(P, b, k), nattr(P, b, k) >= 0,
             z3.Select(c_rows, cto(b, k)) == rlo(b, k), new(rlo(b, k)), z3.Select(rl_owner, rlo(b, k)) == cto(b, k),
             z3.Select(rws.length, rlo(b, k)) == nrows(P, b, k), nrows(P, b, k) >= 0)),
-            cto(b, k), sel2(vals, cont(b), cname(P, b, k))),
+            cto(b, k), sel2(vals, cont(b), cname(P, b, k)), sel2(dom, cont(b), cname(P, b, k))),
         _forall([b, k, a], z3.Implies(z3.And(ink, a >= 0, a < nattr(P, b, k)), sel2(items.elems, ato(b, k), a) == attr(P, b, k, a)),
                 sel2(items.elems, ato(b, k), a), attr(P, b, k, a)),
         _forall([b, k, q], z3.Implies(inr, z3.And(
@@ -508,7 +534,7 @@ def ext_readFile(e, args, kw, node, st):
             z3.Select(r_idx, rwo(b, k, q)) == q, z3.Select(cells.length, rwo(b, k, q)) == rowlen(P, b, k, q), rowlen(P, b, k, q) >= 0)),
             rwo(b, k, q), sel2(rws.elems.ident, rlo(b, k), q)),
         _forall([b, k, q, c], z3.Implies(z3.And(inr, c >= 0, c < rowlen(P, b, k, q)), sel2(cells.elems, rwo(b, k, q), c) == cell(P, b, k, q, c)),
-                sel2(cells.elems, rwo(b, k, q), c), cell(P, b, k, q, c)),
+                sel2(cells.elems, rwo(b, k, q), c)),
     ]
     for f_ in facts:
         st.assume(f_)
@@ -755,7 +781,7 @@ class copy_from_to:
     raises = []
     modifies = GHOST_FIELDS + LIST_FIELDS
     locals = {"transformed": "list[Row]"}
-    ghost_entry = ["let W = 0 - 1"]
+    ghost_entry = ["let W = 0 - 1", "let P = parse(file_content)"]
     ensures = [
         "implies(not applies(parse(file_content), category, copy_from), result == file_content)",
         "implies(applies(parse(file_content), category, copy_from), result == render(W))",
@@ -777,9 +803,13 @@ class copy_from_to:
         "collected(C, n, transformed)",
     ]}}
     ghost = [
+        {"when": "after", "at": "with tempfile.NamedTemporaryFile(mode='wt')", "label": "parsed", "do": ["assert names_are(data, P)"]},
+        {"when": "before", "at": "return file_content", "label": "nothing-to-edit", "do": ["assert not applies(P, category, copy_from)"]},
         {"when": "after", "at": "attributes = category_obj.getAttributeList()", "label": "category-object",
-         "do": ["let C = data[0].cat[category]", "let A0 = attributes.items",
+         "do": ["let C = data[0].cat[category]", "let A0 = attributes.items", "let kc = data[0].names.items.index(category)",
                 "assert attributes is C.attrs and fresh(attributes) and attributes.kind == 1",
+                "assert cat_at(P, kc, category) and C is data[0].cat[cname(P, 0, kc)]",
+                "assert items_are(A0, P, kc)",
                 "assert full_rows(C, A0)"]},
         {"when": "before", "at": "for row in", "label": "attribute-list",
          "do": ["let A1 = attributes.items", "let i1 = A1.index(copy_from)", "let j1 = A1.index(copy_to)",
@@ -797,7 +827,7 @@ class replace_value:
     raises = []
     modifies = GHOST_FIELDS + LIST_FIELDS
     locals = {"transformed": "list[Row]", "mapping": "dict[str,str]"}
-    ghost_entry = ["let W = 0 - 1", "let P = parse(file_content)", "use ndist_definition(P)"]
+    ghost_entry = ["let W = 0 - 1", "let P = parse(file_content)", "use ndist_definition(P)", "use firstpos_definition(P)"]
     ensures = [
         "implies(not applies(parse(file_content), category, column), result[0] == file_content and len(result[1]) == 0)",
         "implies(applies(parse(file_content), category, column), result[0] == render(W))",
@@ -826,10 +856,13 @@ class replace_value:
         "collected(C, n, transformed)",
     ]}}
     ghost = [
+        {"when": "after", "at": "with tempfile.NamedTemporaryFile(mode='wt')", "label": "parsed", "do": ["assert names_are(data, P)"]},
+        {"when": "before", "at": "return (file_content", "label": "nothing-to-edit", "do": ["assert not applies(P, category, column)"]},
         {"when": "after", "at": "attributes = category_obj.getAttributeList()", "label": "category-object",
          "do": ["let C = data[0].cat[category]", "let A0 = attributes.items", "let kc = data[0].names.items.index(category)",
                 "assert attributes is C.attrs and fresh(attributes) and attributes.kind == 1",
                 "assert cat_at(P, kc, category) and C is data[0].cat[cname(P, 0, kc)]",
+                "assert items_are(A0, P, kc)",
                 "assert full_rows(C, A0)"]},
         {"when": "before", "at": "for row in", "label": "column",
          "do": ["let ic = A0.index(column)",
@@ -838,7 +871,8 @@ class replace_value:
         {"when": "after", "at": "i = attributes.index(column)", "loop": 0, "label": "row",
          "do": ["assert i == ic and row is C.rows.rws0[n] and row.cells == row.cells0",
                 "assert row[i] == cell(P, 0, kc, n, ic)",
-                "assert (row[i] in mapping) == seen_before(P, kc, ic, n)"]},
+                "assert implies(row[i] in mapping, firstpos(P, kc, ic, row[i]) < n and seen_before(P, kc, ic, n))",
+                "assert implies(seen_before(P, kc, ic, n), row[i] in mapping)"]},
         {"when": "before", "at": "mapping[row[i]] =", "loop": 0, "label": "new-value",
          "do": ["assert ndist(P, kc, ic, n + 1) == ndist(P, kc, ic, n) + 1",
                 "assert 0 <= n + 1 and n + 1 <= nrows(P, 0, kc)",
